@@ -141,6 +141,9 @@ def worker(args):
     return out
 
 
+ONLY = None
+
+
 def main(argv=None):
     ap = argparse.ArgumentParser()
     ap.add_argument("prop")
@@ -150,6 +153,8 @@ def main(argv=None):
     ap.add_argument("--only")
     ap.add_argument("-v", action="store_true")
     a = ap.parse_args(argv)
+    global ONLY
+    ONLY = a.only
     t0 = time.time()
     seed = int(os.environ.get("VERIF_SEED", "0"))
     load_contracts()
@@ -358,6 +363,8 @@ def report(prop, tier, seed, results, known, assumed, t0, verbose):
         "violations": len(violations),
     }
     edir = os.environ.get("PYVC_EVIDENCE_DIR") or os.path.join(ROOT, "evidence")  # dev tools redirect it for seeded runs
+    if ONLY and not os.environ.get("PYVC_EVIDENCE_DIR"):
+        edir = os.path.join(ROOT, "scratch", "evidence_partial")  # a partial run (--only) never replaces the property's evidence
     os.makedirs(edir, exist_ok=True)
     json.dump(evid, open(os.path.join(edir, f"{prop}.json"), "w"), indent=1, default=str)
     print(f"{prop}: {len(fucs)} functions under contract, {n_obl} obligations, {n_dis} discharged, "
